@@ -25,7 +25,7 @@ def res_tables(net):
 
 
 def compare_frames(table, dfa, dfb, scale, exact=False, ptol=1e-8, ttol=1e-6, mrel=1e-6, drel=1e-6, skip_cols=(),
-                   mabs=2e-9):
+                   mabs=2e-9, mfloor=1e-9):
     """dfa, dfb: result frames with identical index order. returns list of diff dicts."""
     diffs = []
     if list(dfa.columns) != list(dfb.columns):
@@ -62,7 +62,7 @@ def compare_frames(table, dfa, dfb, scale, exact=False, ptol=1e-8, ttol=1e-6, mr
             elif c in T_COLS:
                 tol = np.full_like(a, ttol)
             elif "mdot" in c:
-                tol = np.full_like(a, mrel * scale + 1e-9)
+                tol = np.full_like(a, mrel * scale + mfloor)
             elif c in FLOW_DEP:
                 # Re and lambda are reported from the last linearisation: they lag the final mass flow by one
                 # Newton step (<= tol_m in force, `mabs`), i.e. relative uncertainty mabs / |mdot|
@@ -76,7 +76,7 @@ def compare_frames(table, dfa, dfb, scale, exact=False, ptol=1e-8, ttol=1e-6, mr
                 tol = drel * np.maximum(np.abs(a), np.abs(b)) + drel * colmax + 1e-12
                 if "normfactor" not in c and flowing is not None:
                     # velocities / volume flows follow the mass flow: absolute part from the flow tolerance
-                    tol = tol + (mrel * scale + 1e-9) * np.where(np.nan_to_num(np.abs(a)) > 0,
+                    tol = tol + (mrel * scale + mfloor) * np.where(np.nan_to_num(np.abs(a)) > 0,
                                                                  np.abs(a) / np.maximum(np.nan_to_num(ma), 1e-300), 0.0)
             bad = ok & ~(d <= tol)
         if bad.any():
